@@ -1,6 +1,8 @@
 import VermouthModel.C02
 import VermouthModel.C02_Hist
+import VermouthModel.C02_Repo
 import Generated.C02Tables
+import Generated.C02RepoTables
 open Proto C02
 
 def atomOf (t : Tok) : Option Atom := do
@@ -100,6 +102,35 @@ def handle (_ : Unit) (toks : List Tok) : Unit × String :=
         match parse arityTable s with
         | .ok p => pure (encParsed p)
         | .error e => pure ("perr " ++ encPErr e)
+    | Tok.str "repo" :: args => do
+        -- the composed model: the repo's own reader (C13 model) on what the writer model writes
+        let m ← molOf args
+        let ro := Repo.repoOk (Repo.itpTab.map (·.path)) m
+        match write m with
+        | .error e => pure ("err " ++ encErr e)
+        | .ok ls =>
+          let rt := match Repo.readITPx Repo.itpIdx Repo.itpTab (Repo.textLines (render ls)) with
+            | some [(some n, (_, blk))] =>
+              n == m.moltype && (match Repo.viewBlock blk with
+                | some p => decide (p = canon m)
+                | none => false)
+              && blk.base.nodes.map (·.1) == (List.range m.atoms.length).map (fun (k : Nat) => toString k)
+            | _ => false
+          pure ("ok " ++ encBool ro ++ " " ++ encBool rt)
+    | [Tok.str "reporead", t] => do
+        -- the composed reader on an arbitrary text (compared with the real read_itp)
+        let s ← t.str?
+        match Repo.readITPx Repo.itpIdx Repo.itpTab (Repo.textLines s) with
+        | none => pure "error"
+        | some bs => pure ("ok " ++ encList (bs.map fun (k, (_, b)) =>
+            encList [encOptStr k, encOptStr b.nrexcl,
+              encList (b.base.nodes.map fun n => encList [encStr n.1, encList (n.2.map fun kv =>
+                encList [encStr kv.1, match kv.2 with | .str v => encStr v | _ => "-"])]),
+              encList (b.rows.map fun r => encList (r.map encStr)),
+              encList (b.base.inters.map fun it =>
+                encList [encStr it.sect,
+                  (match it.pmeta with | some (c, g) => encList [encStr c, encStr g] | none => "-"),
+                  encList (it.atoms.map encStr), encList (it.params.map encStr)])]))
     | Tok.str "canon" :: args => do
         let m ← molOf args
         pure (encParsed (canon m))
